@@ -6,7 +6,7 @@ package main
 import (
 	"fmt"
 	"go/types"
-	"strings"
+	_ "strings"
 
 	"golang.org/x/tools/go/ssa"
 )
@@ -56,11 +56,6 @@ func initModels() {
 	now := &model{silent: true, fn: func(x *Exec, p *Path, site ssa.Instruction, cc *ssa.CallCommon, args []Val) ([]Val, bool) {
 		x.e.note("clock.Now() is monotone; time.Time is integer nanoseconds")
 		if x.clockStable {
-			if !strings.HasPrefix(p.clock, "|now") {
-				t := x.e.fresh("now", "Int")
-				p.assume("(>= " + t + " " + p.clock + ")")
-				p.clock = t
-			}
 			return []Val{scalar(cc.Signature().Results().At(0).Type(), p.clock)}, true
 		}
 		t := x.e.fresh("now", "Int")
